@@ -113,7 +113,8 @@ def runRel (c : Case) : Verdict :=
   let b := c.get "gob"
   match c.get "rel" with
   | "eq" =>
-    { agree := a == b, spec := if a == b then "ok" else "fail:the-two-runs-differ", model := a }
+    let ok := a == b && !(a.startsWith "!")
+    { agree := ok, spec := if ok then "ok" else if a == b then "fail:both-runs-failed" else "fail:the-two-runs-differ", model := a }
   | "multiset" =>
     let ok := !(a.startsWith "!") && rowsAsMultisets a == rowsAsMultisets b
     { agree := ok, spec := if ok then "ok" else "fail:the-two-runs-differ-beyond-order", model := a }
